@@ -80,6 +80,7 @@ func main() {
 	repo := flag.String("repo", "/repo", "repository root")
 	verif := flag.String("verif", "/verif", "verif root")
 	out := flag.String("out", "", "output directory")
+	norewrite := flag.Bool("norewrite", false, "map only the virtual packages and export files (no source rewriting): overlay of the free-running -race binary")
 	flag.Parse()
 	if *out == "" {
 		fatal("-out required")
@@ -96,9 +97,13 @@ func main() {
 		Env:        append(os.Environ(), "GOFLAGS=-mod=mod", "GOPROXY=off", "GOSUMDB=off", "GOTOOLCHAIN=local"),
 		BuildFlags: []string{"-tags=verif"},
 	}
-	pkgs, err := packages.Load(pc, patterns...)
-	if err != nil {
-		fatal("load: %v", err)
+	var pkgs []*packages.Package
+	if !*norewrite {
+		var err error
+		pkgs, err = packages.Load(pc, patterns...)
+		if err != nil {
+			fatal("load: %v", err)
+		}
 	}
 	overlay := map[string]string{}
 	nerr := 0
@@ -115,7 +120,7 @@ func main() {
 	for _, p := range pkgs {
 		rel := strings.TrimPrefix(p.PkgPath, mod+"/")
 		c, ok := cfg[rel]
-		if !ok {
+		if !ok || *norewrite {
 			continue
 		}
 		for i, f := range p.Syntax {
@@ -143,7 +148,7 @@ func main() {
 	// generated per-package reset of plain package-level variables (fresh globals per world)
 	for _, p := range pkgs {
 		rel := strings.TrimPrefix(p.PkgPath, mod+"/")
-		if c, ok := cfg[rel]; ok && c.conc {
+		if c, ok := cfg[rel]; ok && c.conc && !*norewrite {
 			if src := genReset(p); src != "" {
 				dst := filepath.Join(*out, "src", rel, "zz_verif_reset.go")
 				os.MkdirAll(filepath.Dir(dst), 0o755)
@@ -155,7 +160,7 @@ func main() {
 		}
 	}
 	// virtual packages
-	for _, d := range []string{"rt/vos", "rt/vrt", "rt/vsync", "mc", "world", "checks", "cmd/mcheck"} {
+	for _, d := range []string{"rt/vos", "rt/vrt", "rt/vsync", "mc", "world", "checks", "cmd/mcheck", "race", "cmd/racepass"} {
 		ents, _ := os.ReadDir(filepath.Join(*verif, d))
 		for _, e := range ents {
 			if e.IsDir() || !strings.HasSuffix(e.Name(), ".go") {
